@@ -68,8 +68,9 @@ class Ctx:
 _build_result = None
 
 
-def ensure_build():
-    """Regenerate coq/Gen/*.v from /repo, then make.  Returns dict(rc, log)."""
+def ensure_build(targets=None):
+    """Regenerate coq/Gen/*.v from /repo, then make (only the given .vo targets and what they
+    depend on, when given).  Returns dict(rc, log)."""
     global _build_result
     if _build_result is not None:
         return _build_result
@@ -77,10 +78,14 @@ def ensure_build():
     gen = V + '/tools/gen_all.py'
     if os.path.exists(gen):
         gen_rc, gen_log, _ = sh([sys.executable, gen], cwd=V, env=goenv(), timeout=900)
-    rc, out, dt = sh([V + '/tools/build.sh'], cwd=V, timeout=3600)
+    logp = '%s/make.%d.check.log' % (BUILD, os.getpid())
+    e = dict(os.environ); e['VERIF_BUILD_LOG'] = logp
+    rc, out, dt = sh([V + '/tools/build.sh'] + [t + '.vo' for t in (targets or [])], cwd=V, timeout=3600, env=e)
     log = ''
     try:
-        log = open(BUILD + '/make.log').read()
+        log = open(logp if targets else BUILD + '/make.log').read()
+        if targets:
+            os.remove(logp)
     except OSError:
         pass
     _build_result = dict(rc=rc, log=log, gen_rc=gen_rc, gen_log=gen_log, wall=dt)
@@ -108,10 +113,10 @@ def failed_files(log):
     return sorted(set(re.findall(r'\*\*\* \[Makefile:\d+: (\S+)\.vo\] Error', log)))
 
 
-def check_proofs(ctx, prop_files, extra_obligation_files=()):
+def check_proofs(ctx, prop_files, extra_obligation_files=(), extract_files=()):
     """Re-check the property files.  Returns dict with obligations, discharged, axioms,
     broken (list of (file, error))."""
-    b = ensure_build()
+    b = ensure_build(list(prop_files) + list(extra_obligation_files) + list(extract_files))
     res = dict(obligations=0, discharged=0, axioms=[], broken=[], theorems=[], closed=0,
                checker_cmd='coq_makefile -f _CoqProject -o Makefile && make -k -j16 (full .vo build, Coq 8.16.1) ; '
                            'coqc -Q . Cloak Properties/<id>.v (Print Assumptions parsed)')
@@ -348,8 +353,8 @@ class Verdict:
         return 1 if self.violations else 0
 
 
-def standard_proof_part(ctx, verdict, prop_files, extra=()):
-    pr = check_proofs(ctx, prop_files, extra)
+def standard_proof_part(ctx, verdict, prop_files, extra=(), extract=()):
+    pr = check_proofs(ctx, prop_files, extra, extract)
     verdict.proof = pr
     return pr
 
